@@ -460,6 +460,25 @@ def c_sum(func, args, kwargs):
     return _sum(A, _axes(A, dims), keep)
 
 
+@simple(aten.logsumexp.default)
+def c_logsumexp(func, args, kwargs):
+    A = A_(args[0])
+    dims = args[1] if len(args) > 1 else kwargs.get("dim")
+    keep = args[2] if len(args) > 2 else kwargs.get("keepdim", False)
+    E = vec(sym_exp)(A)
+    return vec(sym_log)(as_sym_arr(_sum(E, _axes(A, dims), keep)))
+
+
+@simple(aten._softmax.default, aten._log_softmax.default)
+def c_softmax(func, args, kwargs):
+    A = A_(args[0])
+    dim = args[1] % max(A.ndim, 1)
+    E = vec(sym_exp)(A)
+    tot = as_sym_arr(_sum(E, (dim,), True))
+    P = E / tot
+    return vec(sym_log)(P) if func is aten._log_softmax.default else P
+
+
 @simple(aten.mean.dim, aten.mean.default)
 def c_mean(func, args, kwargs):
     A = A_(args[0])
